@@ -65,6 +65,8 @@ RULE_GROUPS: Dict[str, Callable] = {
     'rd.subgraph_node_set': rd.rule_subgraph_node_set,
     'st.default_visibility': st.rule_default_visibility,
     'st.contained_failures': st.rule_contained_failures,
+    'st.order_skips_taken_nodes': st.rule_order_skips_taken_nodes,
+    'bd.annotation_check_semantics': bd.rule_annotation_check_semantics,
     'st.ready_vs_active_subgraph': st.rule_ready_vs_active_subgraph,
     'st.kwargs_hidden_verdict': st.rule_kwargs_hidden_verdict,
     'hx.cancelled_execution': hx.rule_cancelled_execution,
@@ -161,6 +163,9 @@ RULES: Dict[str, Tuple[str, str]] = {
     'EX-6': ('hx.executor_exception_transfer', 'StopIteration cannot escape a body that runs in an executor'),
     'LK-8': ('hx.no_attempt_after_cancel', 'the retry loop starts no new attempt once its task has been asked to cancel'),
     'CC-8': ('hx.order_vs_dependencies', 'dependencies restricted to a sub-dag come from the sub-dag\'s own edges (consistent with its launch order)'),
+    'VL-7': ('bd.annotation_check_semantics', 'the annotation check rejects every un-annotated parameter (whatever its default) and accepts annotated run methods'),
+    'ON-6': ('st.order_skips_taken_nodes', 'a plain scope schedules exactly the nodes nobody has taken yet; a recurrent scope orders all its nodes'),
+    'SH-6': ('cc.wrapper_kind', 'a process wrapper generated for a node class keeps no state in its enclosing scope'),
     'RC-8': ('oo.recurrent_loop', 'the hand-over entry of a recurrent subgraph is removed when the subgraph has finished'),
     'RT-7': ('rt.retry_loop', 'the default value is never produced inside the protected region of the retry loop'),
     'LK-7': ('lk.spawn_registered', 'the task registry holds strong references (the event loop keeps only weak references to tasks)'),
@@ -570,6 +575,11 @@ _add('C10', 'ON-5', 'RD-8', 'RC-9', 'OO-9', 'ST-3')
 _add('C11', 'RC-9', 'ST-3')
 _add('C13', 'LK-8')
 _add('C14', 'EV-5', 'EV-6')
+_add('C16', 'VL-7')
+_add('C07', 'SH-6')
+_add('C08', 'SH-6')
+_add('C04', 'ON-6')
+_add('C19', 'ON-6')
 EXTRA_GROUPS = {
     # additional rule groups that report under an existing rule id
     'C03': ['st.ready_vs_active_subgraph', 'st.kwargs_hidden_verdict'],
